@@ -216,6 +216,132 @@ CheckSint(i) ==
     ELSE e.res = "ok" => IF e.val.neg = e.lit.neg /\ e.val.d = e.lit.d THEN TRUE
                          ELSE Report(i, "sint-in-value", [ty |-> e.ty, route |-> e.route, lit |-> e.lit, val |-> e.val]) /\ FALSE
 
+\* ---- spans (C14) and located errors (C15) ----
+\* code point index (1-based) whose byte offset is b; 0 when b is not a character boundary of the text
+RECURSIVE CpAtAcc(_, _, _)
+CpAtAcc(offs, b, i) == IF i > Len(offs) THEN 0 ELSE IF offs[i] = b THEN i ELSE IF offs[i] > b THEN 0 ELSE CpAtAcc(offs, b, i + 1)
+CpAt(offs, b) == CpAtAcc(offs, b, 1)
+SpanWellFormed(sp, offs) == sp = <<>> \/ (Len(sp) = 2 /\ sp[1] <= sp[2] /\ CpAt(offs, sp[1]) > 0 /\ CpAt(offs, sp[2]) > 0)
+Within(inner, outer) == inner = <<>> \/ outer = <<>> \/ (outer[1] <= inner[1] /\ inner[2] <= outer[2])
+ByteSpan(sp, offs) == <<offs[sp[1]], offs[sp[2]]>>
+Slice(t, sp, offs) == SubSeq(t, CpAt(offs, sp[1]), CpAt(offs, sp[2]) - 1)
+EntryFor(es, key) == CHOOSE j \in 1..Len(es) : es[j].key = key
+HasEntry(es, key) == \E j \in 1..Len(es) : es[j].key = key
+
+\* s: specification value (spans in code point positions), m: projected value with byte spans
+RECURSIVE SpansOk(_, _, _, _, _)
+SpansOk(t, offs, s, m, parent) ==
+  /\ s.k = m.k
+  /\ SpanWellFormed(m.sp, offs)
+  /\ Within(m.sp, parent)
+  /\ (s.sp # NoSpan /\ s.k # "t") => m.sp = ByteSpan(s.sp, offs)
+  /\ (s.sp # NoSpan /\ s.k = "t") => (m.sp = <<>> \/ m.sp = ByteSpan(s.sp, offs))
+  \* re-parsing the spanned slice on its own yields the same value
+  /\ (m.sp # <<>> /\ s.k \notin {"t", "a"}) =>
+        LET w == WholeValue(Slice(t, m.sp, offs)) IN w.ok /\ Plain(w.v) = Plain(s)
+  /\ (m.sp # <<>> /\ s.k \in {"t", "a"} /\ s.sp # NoSpan) =>
+        LET w == WholeValue(Slice(t, m.sp, offs)) IN w.ok /\ Plain(w.v) = Plain(s)
+  /\ CASE s.k = "a" -> Len(s.v) = Len(m.v) /\ \A x \in 1..Len(s.v) : SpansOk(t, offs, s.v[x], m.v[x], IF s.sp # NoSpan THEN m.sp ELSE <<>>)
+       [] s.k = "t" ->
+            /\ Len(s.v) = Len(m.v)
+            /\ \A x \in 1..Len(m.v) :
+                 /\ HasEntry(s.v, m.v[x].key)
+                 /\ LET se == s.v[EntryFor(s.v, m.v[x].key)]
+                        \* syntactic children: entries of an inline table; body key/values of a header table
+                        inside == IF s.sp # NoSpan \/ se.val.sp # NoSpan THEN m.sp ELSE <<>>
+                    IN /\ SpanWellFormed(m.v[x].ksp, offs)
+                       /\ Within(m.v[x].ksp, IF s.sp # NoSpan THEN m.sp ELSE <<>>)
+                       /\ m.v[x].ksp # <<>> =>
+                            LET w == WholeKey(Slice(t, m.v[x].ksp, offs)) IN w.ok /\ w.v.s = m.v[x].key
+                       /\ SpansOk(t, offs, se.val, m.v[x].val, inside)
+       [] OTHER -> TRUE
+
+\* Spanned<T> elements / map keys delivered through serde: only the outermost level carries spans
+SpansOkInner(t, offs, s, m) ==
+  CASE s.k = "a" /\ m.k = "a" ->
+         /\ Len(s.v) = Len(m.v)
+         /\ \A x \in 1..Len(s.v) : s.v[x].sp # NoSpan => m.v[x].sp = ByteSpan(s.v[x].sp, offs)
+    [] s.k = "t" /\ m.k = "t" ->
+         \A x \in 1..Len(m.v) :
+           /\ HasEntry(s.v, m.v[x].key)
+           /\ SpanWellFormed(m.v[x].ksp, offs)
+           /\ LET w == WholeKey(Slice(t, m.v[x].ksp, offs)) IN w.ok /\ w.v.s = m.v[x].key
+           /\ LET se == s.v[EntryFor(s.v, m.v[x].key)] IN se.val.sp # NoSpan => m.v[x].val.sp = ByteSpan(se.val.sp, offs)
+    [] OTHER -> FALSE
+
+RECURSIVE NoSpans(_)
+NoSpans(m) ==
+  /\ m.sp = <<>>
+  /\ CASE m.k = "a" -> \A x \in 1..Len(m.v) : NoSpans(m.v[x])
+       [] m.k = "t" -> \A x \in 1..Len(m.v) : m.v[x].ksp = <<>> /\ NoSpans(m.v[x].val)
+       [] OTHER -> TRUE
+
+KindOfTy(ty) == CASE ty = "i64" -> {"i"} [] ty = "f64" -> {"f", "i"} [] ty = "bool" -> {"b"} [] ty = "string" -> {"s"}
+                  [] ty = "datetime" -> {"dt", "t"}  \* Datetime is decoded from a map: a table is rejected for its content, not its kind [] ty \in {"array", "array_spanned"} -> {"a"}
+                  [] ty \in {"table", "table_spanned"} -> {"t"} [] OTHER -> {"s", "i", "f", "b", "dt", "a", "t"}
+
+CheckSpan(i) ==
+  LET e == Ev[i]
+      t == e.text
+      p == ParseDocument(t)
+      offs == Offs(t)
+  IN IF p.res # "ok" \/ e.res = "err" THEN TRUE
+     ELSE IF e.res # "ok" THEN Report(i, "span-panic", e.res) /\ FALSE
+     ELSE
+       /\ IF SpansOk(t, offs, p.tree, e.tree, <<>>) THEN TRUE ELSE Report(i, "span-tree", [expected |-> p.tree]) /\ FALSE
+       /\ IF NoSpans(e.into_mut) /\ NoSpans(e.docmut) THEN TRUE ELSE Report(i, "span-stale", "into_mut/DocumentMut carries spans") /\ FALSE
+       /\ \A g \in 1..Len(e.typed) :
+            LET y == e.typed[g]
+                hasK == HasEntry(p.tree.v, <<107>>)
+                kv == p.tree.v[EntryFor(p.tree.v, <<107>>)].val
+            IN /\ IF y.plain.res = y.spanned.res /\ y.plain.res # "panic" THEN TRUE
+                  \* known finding F13: a table that has no span of its own (created by dotted keys or implicitly
+                  \* by a header path) cannot be decoded into Spanned<map>
+                  ELSE IF hasK /\ kv.k = "t" /\ kv.sp = NoSpan /\ y.plain.res = "ok" /\ y.spanned.res = "err"
+                       THEN Report(i, "span-spanned-spanless-table", [ty |-> y.ty]) /\ FALSE
+                  ELSE Report(i, "span-spanned-verdict", [ty |-> y.ty, plain |-> y.plain.res, spanned |-> y.spanned.res]) /\ FALSE
+               /\ (y.plain.res = "ok" /\ y.spanned.res = "ok") =>
+                    /\ IF y.plain.val = y.spanned.val THEN TRUE ELSE Report(i, "span-spanned-value", [ty |-> y.ty]) /\ FALSE
+                    /\ IF /\ SpanWellFormed(y.spanned.sp, offs)
+                          /\ (hasK /\ kv.sp # NoSpan) => y.spanned.sp = ByteSpan(kv.sp, offs)
+                          /\ (hasK /\ y.ty \in {"array_spanned", "table_spanned"}) => SpansOkInner(t, offs, kv, y.spanned.inner)
+                       THEN TRUE ELSE Report(i, "span-spanned-range", [ty |-> y.ty, sp |-> y.spanned.sp]) /\ FALSE
+               \* C15: a type mismatch is located at the offending value
+               /\ (y.plain.res = "err" /\ hasK /\ kv.k \notin KindOfTy(y.ty)) =>
+                    IF /\ y.plain.err.msg_nonempty
+                       /\ SpanWellFormed(y.plain.err.span, offs)
+                       /\ kv.sp # NoSpan => y.plain.err.span = ByteSpan(kv.sp, offs)
+                    THEN TRUE ELSE Report(i, "err-type-location", [ty |-> y.ty, err |-> y.plain.err]) /\ FALSE
+
+\* line (1-based) and column (1-based, in characters) of code point position i; at end of input one past the
+\* last character, on that character's line
+RECURSIVE LineColAcc(_, _, _, _, _)
+LineColAcc(t, i, j, line, col) == IF j >= i THEN <<line, col>>
+                                   ELSE IF t[j] = 10 THEN LineColAcc(t, i, j + 1, line + 1, 1) ELSE LineColAcc(t, i, j + 1, line, col + 1)
+LineCol(t, i) == IF Len(t) = 0 THEN <<1, 1>>
+                 ELSE IF i <= Len(t) THEN LineColAcc(t, i, 1, 1, 1)
+                 ELSE LET lc == LineColAcc(t, Len(t), 1, 1, 1) IN <<lc[1], lc[2] + 1>>
+
+CheckErr(i) ==
+  LET e == Ev[i]
+      t == e.text
+      offs == Offs(t)
+  IN \A g \in 1..Len(e.errs) :
+       LET r == e.errs[g] IN
+       /\ IF r.msg_nonempty THEN TRUE
+          \* known finding F12: no message when the parser stops at a control character (incl. a bare CR, or
+          \* right after one) or at the end of input
+          ELSE IF r.span # <<>> /\ SpanWellFormed(r.span, offs) /\
+                  LET cp == CpAt(offs, r.span[1]) c == At(t, cp) prev == At(t, cp - 1) IN
+                  cp > Len(t) \/ (c >= 0 /\ c < 32 /\ c # 9 /\ c # 10) \/ c = 127 \/ prev = 13
+               THEN Report(i, "err-empty-message-at-control-or-eof", [fe |-> r.fe, span |-> r.span]) /\ FALSE
+          ELSE Report(i, "err-empty-message", [fe |-> r.fe, span |-> r.span]) /\ FALSE
+       /\ IF ~r.render_panic THEN TRUE ELSE Report(i, "err-render-panic", [fe |-> r.fe]) /\ FALSE
+       /\ IF SpanWellFormed(r.span, offs) THEN TRUE ELSE Report(i, "err-span", [fe |-> r.fe, span |-> r.span]) /\ FALSE
+       /\ (r.span # <<>> /\ SpanWellFormed(r.span, offs)) =>
+            IF r.linecol = LineCol(t, CpAt(offs, r.span[1])) THEN TRUE
+            ELSE Report(i, "err-linecol", [fe |-> r.fe, span |-> r.span, impl |-> r.linecol, spec |-> LineCol(t, CpAt(offs, r.span[1]))]) /\ FALSE
+
 U1Note(i) == Ev[i].ev = "parse" /\ ParseDocument(Ev[i].text).res = "u1" => PrintT(ToJson([u1 |-> i]))
 
 CheckEvent(i) ==
@@ -228,6 +354,8 @@ CheckEvent(i) ==
     [] Ev[i].ev = "num" -> CheckNum(i)
     [] Ev[i].ev = "quote" -> CheckQuote(i)
     [] Ev[i].ev = "sint" -> CheckSint(i)
+    [] Ev[i].ev = "span" -> CheckSpan(i)
+    [] Ev[i].ev = "err" -> CheckErr(i)
     [] OTHER -> Report(i, "unknown-event", Ev[i].ev) /\ FALSE
 
 Init == lvl = 0 /\ idx = 0
